@@ -249,7 +249,9 @@ fn extractor_class(s: &Sig) -> &'static str {
     }
 }
 
-fn part_hosts(run: &mut Run) {
+/// `panics_only`: used by C02 ("host functions of any arity": execution never panics) with the
+/// same calls; only unwinds are reported, under `prop`'s keys
+pub fn part_hosts_for(run: &mut Run, prop: &str, panics_only: bool) {
     run.sub("host-signatures");
     let log = hosts::new_log();
     for i in 0..NSIGS {
@@ -316,7 +318,10 @@ fn part_hosts(run: &mut Run) {
                             let over = if ni == 1 { "override" } else { "fresh" };
                             run.class(&format!("host:{}:{}:{}:{}", ec, over, match exp { Expect::Invoked(_) => "bind", Expect::Err => "reject", Expect::InvokedOrErr(_) => "extra" }, got.tag()), case);
                             if let Out::Panic(p) = &got {
-                                run.fail(&format!("C20|host|{}|{}|panic", ec, over), format!("`{}` with signature ({}) panicked: {}", call, sig_tag(&s), p), case());
+                                run.fail(&format!("{}|host|{}|{}|panic", prop, ec, over), format!("`{}` with signature ({}) panicked: {}", call, sig_tag(&s), p), case());
+                                continue;
+                            }
+                            if panics_only {
                                 continue;
                             }
                             let invoked_with = |vals: &Vec<MV>| calls.len() == 1 && matches!(&calls[0], Ev::Call(_, v) if v == vals);
@@ -349,5 +354,5 @@ fn part_hosts(run: &mut Run) {
 
 pub fn run(run: &mut Run) {
     part_builtins(run);
-    part_hosts(run);
+    part_hosts_for(run, "C20", false);
 }
